@@ -144,7 +144,7 @@ def impl(case):
             raw.append([num[k] // sc[k] for k in range(3)])
             frac.append([num[k] // sc[k] / DEN for k in range(3)])
         big = (np.array(case['m'], dtype=float) * np.array(sc, dtype=float)[:, None]).tolist()
-        traj = synth.make_traj(big, ['Li'] * len(frac), np.array(frac).reshape(1, -1, 3))
+        traj = synth.make_traj(big, ['Li'] * len(frac), np.array(frac).reshape(1, -1, 3), images=synth.image_seed(case))
         import warnings
         with warnings.catch_warnings():
             warnings.simplefilter('ignore')
